@@ -312,14 +312,14 @@ def run_sequence(ctx, cases, style_fn=None, timeout=600, reuse_dirs=False):
     return [impl_outcome({'ok': True, 'result': x}) for x in r['result']]
 
 
-def overwrite_run(ctx, case_a, case_b, timeout=300):
+def overwrite_run(ctx, case_a, case_b, timeout=300, mappings=False, style=None):
     """In ONE fresh process: materialize case_a in its directory, copy every non-mapping file of case_b's directory over it (same
     names: data files, the UDF file), materialize again with the same configuration.  Returns the two outcomes."""
     wd = common.workdir()
     da, db = os.path.join(wd, 'ovw_a_%d' % (id(case_a) % 1000000)), os.path.join(wd, 'ovw_b_%d' % (id(case_a) % 1000000))
     os.makedirs(da); os.makedirs(db)
-    cfg_a = mapcase.materialise_files(case_a, da); mapcase.materialise_files(case_b, db)
-    r = ctx.pool.map([{'fn': 'mat_overwrite', 'args': {'config': cfg_a, 'dir_a': da, 'dir_b': db}}], timeout=timeout, fresh=True)[0]
+    cfg_a = mapcase.materialise_files(case_a, da, style); mapcase.materialise_files(case_b, db, style)
+    r = ctx.pool.map([{'fn': 'mat_overwrite', 'args': {'config': cfg_a, 'dir_a': da, 'dir_b': db, 'mappings': mappings}}], timeout=timeout, fresh=True)[0]
     shutil.rmtree(da, ignore_errors=True); shutil.rmtree(db, ignore_errors=True)
     if not r.get('ok'):
         return [('exc', r.get('exc', 'Other'), r.get('msg', ''))] * 2
